@@ -81,9 +81,11 @@ class Rule:
 
 
 class Report:
-    def __init__(self, prop: str, tier: str = "quick") -> None:
+    def __init__(self, prop: str, tier: str = "quick", quiet: bool = False) -> None:
         self.prop = prop
         self.tier = tier
+        self.quiet = quiet
+        self.selftest: Optional[Dict[str, Any]] = None
         self.t0 = time.time()
         self.rules: Dict[str, Rule] = {}
         self.known: Dict[tuple, Dict[str, Any]] = {}
@@ -123,6 +125,10 @@ class Report:
         viol = [i for i in all_inst if i.verdict == "violation"]
         known = [i for i in all_inst if i.verdict == "known"]
         vacuous = [r for r in self.rules.values() if len(r.instances) < r.min_instances]
+        if self.quiet:
+            self.violations = viol
+            self.vacuous = vacuous
+            return 1 if viol else 0
         if vacuous:
             msgs = [f"{r.rid}: {len(r.instances)} instances < minimum {r.min_instances} confirmed by hand" for r in vacuous]
             raise AnalysisError("vacuous rule(s): " + "; ".join(msgs))
@@ -167,6 +173,7 @@ class Report:
                 "checker_cmd": f"./check {self.prop} --tier {self.tier}",
                 "trusted_base": ["CPython ast/re._parser", "spec tables under /verif/spec", "rule instance tables under /verif/sa/rules"],
                 "exhaustive": False,
+                **({"selftest": self.selftest} if self.selftest is not None else {}),
                 **self.extra,
             },
             "assumptions": self.assumptions,
